@@ -107,6 +107,7 @@ RULES = {
     "UNIT-INTERVAL": _mod("rules2", "rule_unit_interval"),
     "EXACT-IDS": _mod("rules2", "rule_exact_ids"),
     "SEED-TOTAL": _mod("rules2", "rule_seed_total"),
+    "ER-DRAW": _mod("rules2", "rule_er_draw"),
     "RELAX-AGREE": _mod("bfm", "rule_relax_agree"),
     "FW-SHAPE": _mod("relax", "rule_fw_shape"),
     "DM-QUERIES": _mod("relax", "rule_dm_queries"),
@@ -131,6 +132,7 @@ RULES = {
     "TOTAL": _guard("rule_total", None, 21),
     "ENCAPS": _guard("rule_encaps"),
     "BITS": _guard("rule_bits"),
+    "BITSET": _guard("rule_bitset"),
     "EXHAUST-DJ": rule_exhaust_for(["::Dijkstra", "::DijkstraDist"]),
     "EXHAUST-BFS": rule_exhaust_for(["::Bfs", "::BfsDist"]),
     "EXHAUST-PRED": rule_exhaust_for(["::BfsPred", "::DijkstraPred"]),
@@ -158,7 +160,7 @@ TB = ["rustc MIR + trait solver", "gsa-driver fact exporter", "gsa/effects.py st
 
 PROPERTY_RULES = {
     "C02": {
-        "rules": ["PURE", "TOTAL", "IDSRC", "DEFN-QUERIES", "CONC-QUERY"],
+        "rules": ["PURE", "TOTAL", "IDSRC", "DEFN-QUERIES", "CONC-QUERY", "BITS"],
         "explanation": "Queries cannot change the digraph: the five representations are Freeze and in every body that receives a "
                        "digraph by shared reference no store, raw-pointer write or *const->*mut cast targets memory behind that "
                        "reference (PURE). The 21 documented-total queries (has_arc, has_edge, has_walk, arc_weight, remove_arc) "
@@ -173,7 +175,9 @@ PROPERTY_RULES = {
                        "its workers write only their own histogram (CONC). has_walk tests has_arc on every consecutive pair: all() "
                        "over walk.iter().zip(walk.iter().skip(1)) / walk.windows(2), or a cursor loop from as_ptr to as_ptr + (len-1) "
                        "that advances by exactly one vertex, tests has_arc(*p, *(p+1)) in every iteration, and is left with false "
-                       "exactly on a failed pair and true at the end (DEFN, has_walk clause).",
+                       "exactly on a failed pair and true at the end (DEFN, has_walk clause). Queries of AdjacencyMatrix read the bit "
+                       "matrix cell by cell (word i >> 6 masked with 1 << (i & 63) for the same i), or in loops over its words; a fixed "
+                       "number of words masked with range masks outside any loop cannot cover a row of arbitrary width (BITS).",
         "trusted_base": TB + ["lemma L-ROWMAJOR for the bit-matrix cell index"],
         "not_decided": "the value of the primitive queries themselves (order, size, has_arc, indegree, outdegree, neighbours, "
                        "the threaded degree_sequence): value-level; a derived query rewritten so that it "
@@ -189,7 +193,8 @@ PROPERTY_RULES = {
                        "(guards i + c < len, visits arcs[i + k], advance i += s, tail) is extracted from the MIR and evaluated "
                        "exhaustively for arcs_len = 0..12 (R2, ARC-COVERAGE); every storing relaxation raises the `changed` flag, "
                        "which is reset per round and tested (R3); rounds are `1..order`; the final pass examines every arc, returns "
-                       "None only under the strict test with the unreached guard and Some only after the whole pass (R4); new() "
+                       "None only under the strict test with the unreached guard and Some only after the whole pass (R4; a None that no "
+                       "strict comparison dist[..] > sum dominates is a violation also when no final pass exists, e.g. `if updated`); new() "
                        "checks s < order, fills isize::MAX and sets dist[s] = 0 (R5).",
         "trusted_base": TB + ["lemma L-PERIODIC: a round whose counter advances by a constant s <= 4 behaves periodically in "
                               "arcs_len, so arcs_len = 0..12 covers every residue and two full periods"],
@@ -217,7 +222,8 @@ PROPERTY_RULES = {
                        "tiling template (CONC/TILE; AdjacencyMap::union's merge path is a trusted entry). BITS: an operation of "
                        "AdjacencyMatrix writes the bit matrix only cell by cell (i >> 6, 1 << (i & 63)); whole words are combined only "
                        "as `a |= b` on the same word of two matrices under a check that their orders are equal (a word-wise union of "
-                       "matrices of different orders puts arcs at the wrong cells).",
+                       "matrices of different orders puts arcs at the wrong cells). Counts (order/size) are tracked into closures through "
+                       "their captures (IDSRC), worker scratch containers are row-local (CONC, row-local-scratch).",
         "trusted_base": TB + ["lemma L-TILE", "tables/trusted_tiles.json"],
         "not_decided": "that the arc set is the set-theoretic one; involution/commutativity; validity of literal-built results of "
                        "the contiguous types (value-level set reasoning through iterator chains)",
@@ -235,7 +241,9 @@ PROPERTY_RULES = {
                        "every arc (u,v); is_balanced tests indegree(u) == outdegree(u) for all vertices; is_spanning_subdigraph and "
                        "is_subdigraph require d.has_arc(u,v) for every arc of self; is_superdigraph(d) = d.is_subdigraph(self). "
                        "A predicate of AdjacencyMatrix that reads the bit matrix directly masks a word only with the bit of a cell that "
-                       "lives in that word (BITS, bit-read clause).",
+                       "lives in that word (BITS, bit-read clause). is_tournament / is_semicomplete / is_symmetric / is_oriented are not "
+                       "decided from order / size / degree counts alone (digraphs with equal counts differ in them): an implementation "
+                       "that never reads the adjacency of a pair is a violation (from-counts).",
         "trusted_base": TB + ["lemma L-TILE"],
         "not_decided": "is_complete, is_regular, is_simple, the AdjacencyList/AdjacencyMap pair scans written over raw rows, the "
                        "vertex-set clauses of sub/spanning subdigraph: value-level",
@@ -254,7 +262,7 @@ PROPERTY_RULES = {
         "assumptions": COMMON_ASSUMPTIONS,
     },
     "C15": {
-        "rules": ["NONDET", "ADMISSIBLE-SEEDED", "ONE-PER-PAIR", "CONC-SEEDED", "UNIT-INTERVAL", "SEED-TOTAL"],
+        "rules": ["NONDET", "ADMISSIBLE-SEEDED", "ONE-PER-PAIR", "CONC-SEEDED", "UNIT-INTERVAL", "SEED-TOTAL", "ER-DRAW"],
         "explanation": "No library body reaches an ambient source of nondeterminism (time, hash-order containers, thread ids, "
                        "env, OS RNG) and the CPU count flows into a PRNG seed only in the two documented AdjacencyMap "
                        "generators (NONDET); every seeded generator checks order > 0 and p in [0, 1] before returning "
@@ -264,7 +272,9 @@ PROPERTY_RULES = {
                        "Xoshiro256StarStar::next_f64 lies in [0, 1) by integer interval arithmetic on its constants: "
                        "from_bits(1023 << 52 | (x & (2^52 - 1))) - 1.0, or an integer below C divided by C (UNIT-INTERVAL). No "
                        "overflow-checked arithmetic is applied to a value derived from the seed, in the generators or their worker "
-                       "closures: every seed is accepted (SEED-TOTAL).",
+                       "closures: every seed is accepted (SEED-TOTAL). Every erdos_renyi decides an arc exactly by `next_f64() < p` "
+                       "(strict, p the parameter), or delegates to another erdos_renyi (ER-DRAW): with next_f64 in [0, 1) this gives the "
+                       "extremes p = 0 and p = 1.",
         "trusted_base": TB,
         "not_decided": "the distribution of the draws (statistical quality), that `next_f64() < p` realises probability p",
         "assumptions": COMMON_ASSUMPTIONS,
@@ -288,7 +298,8 @@ PROPERTY_RULES = {
                        "exclusive &mut capture / under a Mutex / as a monotone `false` store (WRITES); in a worker that shares such a "
                        "flag, every path that starts where a pair has just failed both membership tests stores `false` before the "
                        "next pair is tested or the worker returns (flag-published-on-failure, a path rule with constant propagation "
-                       "of the two test results); the row partition matches "
+                       "of the two test results); a scratch container created before a worker's row loop, refilled and read inside it, is "
+                       "emptied on every path of the iteration before it is read (row-local-scratch); the row partition matches "
                        "start = k*c or step_by(c), end = min(n, start + c), c = div_ceil(n, t), or chunks(c) (TILE); the CPU count "
                        "reaches PRNG seeds only in the two allowed generators (NONDET).",
         "trusted_base": TB + ["lemma L-TILE", "tables/trusted_tiles.json (AdjacencyMap::union merge path)"],
@@ -352,45 +363,52 @@ PROPERTY_RULES = {
         "assumptions": COMMON_ASSUMPTIONS,
     },
     "C03": {
-        "rules": ["EXHAUST-DJ", "SCHEMA-DJ"],
+        "rules": ["EXHAUST-DJ", "SCHEMA-DJ", "BITSET"],
         "explanation": "Dijkstra and DijkstraDist are checked against the lazy-deletion schema on every path of new/next/"
                        "distances: None only on the empty-heap edge (J1), min-heap on Reverse<key> (J2), every push is "
                        "dominated by a strict `new < dist[v]` test, stores that key into dist[v] and the key is popped "
                        "key + arc weight (J3), an entry is emitted only under `popped key == dist[vertex]` (J4), the "
                        "neighbour scan is complete and exhausted before the popped vertex is yielded (J5), sources get dist 0 and key "
                        "Reverse(0) (J6), yielded values are "
-                       "the popped ones and distances() folds them into a usize::MAX-filled vector (J7).",
+                       "the popped ones and distances() folds them into a usize::MAX-filled vector (J7). The heap is only pushed to and "
+                       "popped from: any other mutation, including replacing it by assignment (a rebuild from dist[]), is a violation "
+                       "(worklist-edited). Bit sets address word x >> k with bit x & (2^k - 1) (BITSET, crate-wide).",
         "trusted_base": SCHEMA_TB,
         "not_decided": "optimality and emission order as values (they follow from J2-J4 by the standard proof, which is not "
                        "mechanised); behaviour on path sums that overflow usize",
         "assumptions": COMMON_ASSUMPTIONS + ["the iterator is worklist-driven with lazy deletion (design choice encoded in the schema)"],
     },
     "C04": {
-        "rules": ["EXHAUST-BFS", "SCHEMA-BFS"],
+        "rules": ["EXHAUST-BFS", "SCHEMA-BFS", "BITSET"],
         "explanation": "Bfs and BfsDist are checked against the BFS schema: None only on the empty-queue edge (B1), a vertex "
                        "is enqueued only under a dominating `not visited` test and marked on the same path (B2), the scan "
                        "of out_neighbors(dequeued vertex) is complete and exhausted before the vertex is yielded (B3), FIFO "
                        "pop_front/push_back (B4), every source is "
                        "enqueued and marked by new (B5), the dequeued element is the one yielded, level = parent level + 1, "
-                       "distances() stores the yielded level at the yielded vertex in a usize::MAX-filled vector (B6).",
+                       "distances() stores the yielded level at the yielded vertex in a usize::MAX-filled vector (B6). A visited set kept "
+                       "as a bit set addresses word x >> k with bit x & (2^k - 1) (BITSET, crate-wide: a narrower mask makes vertices share "
+                       "a bit).",
         "trusted_base": SCHEMA_TB,
         "not_decided": "equality of the yielded set with the reachable set as a value (follows from B1-B5 by induction on hop distance)",
         "assumptions": COMMON_ASSUMPTIONS + ["mark-on-enqueue BFS (design choice encoded in the schema)"],
     },
     "C05": {
-        "rules": ["EXHAUST-PRED", "SCHEMA-BFS", "SCHEMA-DJ", "SCHEMA-PRED"],
+        "rules": ["EXHAUST-PRED", "SCHEMA-BFS", "SCHEMA-DJ", "SCHEMA-PRED", "TERMINATE", "BITSET"],
         "explanation": "BfsPred and DijkstraPred inherit the BFS / Dijkstra schema; in addition the predecessor pushed with a "
                        "vertex is Some(the popped vertex whose out-neighbour scan produced it) (P1), predecessors()/"
                        "shortest_path()/cycles() store the yielded predecessor at the yielded vertex (P2), shortest_path "
                        "returns a path only under a successful predicate test on the yielded vertex, stops at the first "
                        "such vertex and returns None only on the exhaustion edge (P3); cycles() closes a chain of v only "
-                       "with an out-neighbour of v.",
+                       "with an out-neighbour of v. shortest_path() and cycles() read the path back with PredecessorTree::"
+                       "search_by / search, whose walk along the predecessor links is the visited-set walk checked by TERMINATE "
+                       "(every continuing iteration marks a vertex tested unmarked; no other exit than target / end of chain / "
+                       "revisit; search delegates to search_by).",
         "trusted_base": SCHEMA_TB,
         "not_decided": "minimality of the returned path among several targets and elementariness of cycles() as values",
         "assumptions": COMMON_ASSUMPTIONS,
     },
     "C06": {
-        "rules": ["EXHAUST-DFS", "SCHEMA-DFS"],
+        "rules": ["EXHAUST-DFS", "SCHEMA-DFS", "BITSET"],
         "explanation": "Dfs, DfsDist and DfsPred are checked against the explicit-stack DFS schema: a stale stack entry must "
                        "not end the iteration (D1, EXHAUST), a vertex is yielded only under a `not visited` test and after "
                        "being marked (D2), every out-neighbour of the popped vertex is scanned (to exhaustion, before the yield) and "
